@@ -154,6 +154,11 @@ def run(E: Engine, rep: Report, tier: str) -> dict:
         ti_ = dict(drift_p[0][3]).get("ti") if drift_p else None
         predicted = ti_ is not None and any(t[0] == "call" and t[1][0] == "attr" and t[1][2] == "get_duration" for t in sym.subterms(ti_))
         from_slot = ti_ is not None and any(is_(t, "self._last(channel).ti") is not None for t in sym.subterms(ti_))
+        # (on an empty channel no buffer is added and the last slot is the initial target slot, whose ti is the -1 sentinel:
+        #  the start is clamped at 0)
+        if from_slot:
+            clamped = any(t[0] == "call" and t[1] == ("name", "max") and any(a_ == ("const", 0) for a_ in t[2]) for t in sym.subterms(ti_)) or any(t[0] == "ifexp" for t in sym.subterms(ti_))
+            rep.check(clamped, "FLOW", "Sequence.enable_eom_mode|drift-start-not-before-0", "ti = max(<buffer slot>.ti, 0)", f"enable_eom_mode starts the phase drift at `{sh(ti_, 60)}`: on an empty channel the last slot is the initial target slot (ti = -1, tf = 0), so a drift of detuning_off * 1 ns is 'corrected' although no time has elapsed and every target's phase reference moves", E.where(een, l.node))
         rep.check(from_slot and not predicted, "FLOW", "Sequence.enable_eom_mode|drift-starts-at-the-scheduled-buffer", "ti of the drift = ti of the buffer slot", f"enable_eom_mode starts the phase drift at `{sh(ti_, 80) if ti_ is not None else '?'}`, predicted before _Schedule.enable_eom() runs: enable_eom rounds the fall-time delay up to the clock period / minimum duration, the detuning_off buffer starts later, and the phase is over-corrected by detuning_off times the rounding slack", E.where(een, l.node))
     # (b) the setpoint handed to the scheduler is a copy of the caller's values (AbstractArray does not copy an ndarray)
     for nm in ("enable_eom_mode", "modify_eom_setpoint"):
